@@ -4,7 +4,7 @@ import ast
 import itertools
 
 from .. import seeds
-from ..front import AnalysisError, dotted, fname, is_self_attr, src, walk_no_nested, ancestors
+from ..front import AnalysisError, dotted, fname, is_self_attr, src, walk_no_nested, ancestors, const_value
 from ..imodel import IntegrateModel, DS
 from ..kind import KindEngine, Seeds
 from ..sym import Canon, Poly, BoolTracker, eval_bool, tree_atoms
@@ -22,6 +22,7 @@ def run(repo, run, tier):
     ordering_key(repo, run)
     in_step_test(repo, run, m)
     attributes_and_kinds(repo, run)
+    sentinel(repo, run, m)
 
 
 def _event_loop(m):
@@ -375,3 +376,79 @@ def attributes_and_kinds(repo, run):
         run.report("C07.6", DS, v.node, "%s discipline: %s" % (v.disc, v.why))
     if n == 0:
         raise AnalysisError("handle_events: no event sample evaluations found")
+
+
+def sentinel(repo, run, m, rule_id="C07.7"):
+    """last_occurrence starts at the sentinel -1 (= 'this event has not fired yet'); used as a position in the list of recorded events the sentinel
+    would silently mean 'the most recent record of ANY event' (negative indexing), so every such use must be unreachable while the entry is -1."""
+    import itertools
+    import operator
+    from ..sym import inline_locals, path_condition, tree_atoms, eval_bool, BoolTracker, Poly
+    rid = run.rule(rule_id, "sentinel discipline: last_occurrence is initialised to -1 per event; every `self.__events[last_occurrence[k]]` is reachable only "
+                            "under a condition that excludes last_occurrence[k] == -1 (else a first occurrence is compared with, and suppressed by, the latest "
+                            "record of another event -- e.g. the terminal event that stops the run is not reported)", floor=2)
+    lo = None
+    for st in walk_no_nested(m.fn):
+        if isinstance(st, ast.Assign) and isinstance(st.value, ast.Call) and dotted(st.value.func) == "prepare_events" and isinstance(st.targets[0], ast.Tuple):
+            lo = st.targets[0].elts[3].id
+    if lo is None:
+        raise AnalysisError("anchor missing: prepare_events result unpacking")
+    pe = repo.get(DS, "prepare_events")
+    cpe = Canon(env=inline_locals(pe))
+    sent = None
+    for st in ast.walk(pe):
+        if isinstance(st, ast.Assign) and src(st.targets[0]) == "last_occurrence" and not isinstance(st.value, ast.Call) or \
+                (isinstance(st, ast.Assign) and src(st.targets[0]) == "last_occurrence" and isinstance(st.value, ast.BinOp)):
+            p = cpe.poly(st.value)
+            consts = [cf for mm, cf in p.items() if mm == ()]
+            others = [mm for mm in p if mm != ()]
+            if len(others) == 1 and "zeros" in others[0][0] and consts:
+                sent = consts[0]
+    run.judged(rid, "initial value of every last_occurrence entry: %s" % sent, ok=sent is not None)
+    if sent is None:
+        raise AnalysisError("prepare_events: initial value of last_occurrence (zeros(...) + const) not recognised")
+    env = inline_locals(m.fn)
+    canon = Canon(env=env)
+    uses = []
+    for sub in ast.walk(m.loop):
+        if isinstance(sub, ast.Subscript) and is_self_attr(sub.value, "__events"):
+            idx = sub.slice
+            while isinstance(idx, ast.Name) and idx.id in env:
+                idx = env[idx.id]
+            if isinstance(idx, ast.Subscript) and isinstance(idx.value, ast.Name) and idx.value.id == lo:
+                uses.append((sub, idx))
+    ops = {"Eq": operator.eq, "NotEq": operator.ne, "Lt": operator.lt, "LtE": operator.le, "Gt": operator.gt, "GtE": operator.ge}
+    for sub, idx in uses:
+        key = canon.ptext(idx)
+        bt = BoolTracker(canon=canon)
+        pc, _ = path_condition(sub, m.loop, tracker=bt, guards=True)
+        atoms = tree_atoms(pc)
+        fixed = {}
+        for a in atoms:
+            leaf = bt.leaves.get(a)
+            if isinstance(leaf, tuple):
+                l, op, r = leaf
+                lt, rt = canon.ptext(l), canon.ptext(r)
+                try:
+                    if lt == key:
+                        fixed[a] = ops[type(op).__name__](sent, const_value(r))
+                    elif rt == key:
+                        fixed[a] = ops[type(op).__name__](const_value(l), sent)
+                except (ValueError, KeyError):
+                    pass
+        free = [a for a in atoms if a not in fixed]
+        reachable = len(free) > 16
+        if not reachable:
+            for vals in itertools.product((False, True), repeat=len(free)):
+                asg = dict(fixed)
+                asg.update(zip(free, vals))
+                if eval_bool(pc, asg):
+                    reachable = True
+                    break
+        run.judged(rid, "`%s` unreachable while %s == %s (condition atoms fixed by the sentinel: %d)" % (src(sub)[:70], key, sent, len(fixed)), ok=not reachable)
+        if reachable:
+            run.report(rule_id, DS, sub, "the list of recorded events is indexed with last_occurrence[...] on a path where that entry can still be the sentinel %s "
+                                         "('not fired yet'): negative indexing then reads the latest record of another event, and a first occurrence lying close to it "
+                                         "is dropped" % sent)
+    if not uses:
+        run.judged(rid, "no use of last_occurrence as an index of the recorded events", nontrivial=False)
